@@ -24,7 +24,7 @@ RULE = ("families {daily current/legacy, billing, hourly} x baseline datasets (n
 ASSUMPTIONS = ["when several refusal reasons hold at once (e.g. disqualified and foreign timezone) any raised exception counts as refusal",
                "a model 'carries a disqualification' when model.disqualification is non-empty"]
 REQUIRED_REACH = {"event.fit": 24, "event.predict": 200, "gate.fit_refused": 6, "gate.fit_overridden": 6, "gate.predict_refused_dq": 10,
-                  "gate.predict_overridden": 10, "gate.predict_refused_foreign": 40, "gate.stored_model_events": 60, "gate.poor_fit_model": 2, "gate.poor_fit_rule_judged": 3, "gate.model_object_refitted": 6, "gate.subclass_related_foreign_type": 4, "gate.poor_fit_with_an_undefined_metric": 1,
+                  "gate.predict_overridden": 10, "gate.predict_refused_foreign": 40, "gate.stored_model_events": 60, "gate.poor_fit_model": 2, "gate.poor_fit_rule_judged": 3, "gate.model_object_refitted": 6, "gate.subclass_related_foreign_type": 4, "gate.poor_fit_with_an_undefined_metric": 1, "gate.poor_fit_rule_judged_on_a_poor_fit_of_another_hourly_profile": 2,
                   "gate.unfitted": 6, "stored.disqualification_kind:missing_monthly_temperature_data": 1, "stored.disqualification_kind:incorrect_number_of_total_days": 1}
 
 VIOL = []
@@ -186,6 +186,8 @@ def run_case(spec):
             ok_fit = None
         if ok_fit is not None:
             I.reach("gate.poor_fit_rule_judged")
+            if fam.kind == "hourly" and not ok_fit and spec["family"] != "hourly:default":
+                I.reach("gate.poor_fit_rule_judged_on_a_poor_fit_of_another_hourly_profile")
             if has == ok_fit:
                 add("poor-fit-disqualification-%s:%s" % ("spurious" if ok_fit else "missing", fam.kind), "model %s a poor-fit disqualification although %s" % (
                     "carries" if has else "does not carry", desc), **tag)
@@ -274,11 +276,14 @@ def gen_cases(tier, seed):
     if q:
         combos = [(f, d) for (f, d) in combos if d in ("none", "too_short", "poor_fit")] + [("hourly:default", "poor_fit_undefined_metric"), ("daily:current", "very_short:3"), ("daily:legacy", "very_short:10"), ("hourly:default", "very_short:30"), ("billing", "very_short:3"), ("daily:current", "very_short:10"),
                                                                                           ("daily:current", "day_gaps"), ("hourly:default", "month_gap"),
-                                                                                          ("daily:current", "month_gap"), ("billing", "month_gap"), ("daily:legacy", "temp_run")]
+                                                                                          ("daily:current", "month_gap"), ("billing", "month_gap"), ("daily:legacy", "temp_run"),
+                                                                                          # the poor-fit rule under the other fitting paths of the hourly family (adaptive re-weighting, other scaler, solar)
+                                                                                          ("hourly:adaptive", "poor_fit"), ("hourly:robust", "poor_fit"), ("hourly:default:ghi", "poor_fit")]
     else:
         combos = combos * 3 + [("hourly:default", "poor_fit_undefined_metric"), ("hourly:robust", "poor_fit_undefined_metric"), ("hourly:default:ghi", "poor_fit_undefined_metric")]
         # developer / custom profiles too (thorough): the gate must not depend on the profile
         combos += [(f, d) for d in ("none", "too_short", "poor_fit", "combination") for f in ("daily:legacy-dev-splits", "daily:dev-c_hdd", "daily:custom-maps", "daily:dev-nofinal", "hourly:robust", "hourly:noedge")]
+        combos += [("hourly:" + p_, d) for d in ("poor_fit", "none") for p_ in FT.HOURLY_PROFILES if p_ not in ("default", "robust", "noedge")] + [("hourly:adaptive:ghi", "poor_fit"), ("hourly:supp:ghi", "poor_fit")]
     for f, d in combos:
         cases.append(dict(kind="gate", family=f, defect=d, tz=zones[k % len(zones)], n=k, timeout=3000))
         k += 1
